@@ -38,6 +38,18 @@ func c05Grammar(tier string) (pats, data []map[string]interface{}) {
 		}
 	}
 	data = lib.GenMapsOpts(do)
+	// values that differ only in JSON type (and print alike): a matcher, or anything
+	// between it and the caller, that compares renderings confuses them
+	conf := []interface{}{1.0, "1", true, "true", nil, "<nil>", map[string]interface{}{"b": 2.0}, map[string]interface{}{"b": "2"}}
+	for _, u := range conf {
+		for _, v := range conf {
+			if lib.Canon(u) == lib.Canon(v) {
+				continue // arrays hold distinct elements in the documented fragment
+			}
+			data = append(data, map[string]interface{}{"a": []interface{}{lib.DeepCopy(u), lib.DeepCopy(v)}})
+		}
+	}
+	pats = append(pats, map[string]interface{}{"a": []interface{}{map[string]interface{}{"b": "?x"}}})
 	return
 }
 
